@@ -26,6 +26,10 @@ def variant_string(lr, kind):
     if kind == 'email':
         n = lr.choice([1, 2, 5, 12, 30, 63, 64, 65, 100, 180, 230])
         return ''.join(lr.choice('abcxyzABZ0189._-+!#') for _ in range(n)) + 'q@' + lr.choice(['x.io', 'example.org', 'a-b.c.d.museum', 'h', 'Example.COM'])
+    if lr.random() < 0.12:   # strings shaped like what the tool itself emits (placeholder, pseudonym, ciphertext, constants)
+        return lr.choice(['REDACTED', 'REDACTED_%016x' % lr.getrandbits(64), 'REDACTED_%016x.REDACTED_%016x' % (lr.getrandbits(64), lr.getrandbits(64)), 'X_%016x' % lr.getrandbits(64),
+                          '255.255.255.255:65535', '1970-01-01T00:00:00.000Z', '000000000000000000000000', 'AAAAAAAAAAAAAAAAAAAAAAAAAAAAAA==', '00000000-0000-0000-0000-000000000000',
+                          'AQIDBAUGBwgJCgsMDQ4PEBESExQVFhcYGRobHB0eHyA=', 'true', 'false', 'null', '0', '7', '1.5', '-0', '{}', '[]', '{"a":1}'])
     n = lr.choice([0, 1, 2, 5, 20, 200, 200, 3000, 20000])
     alphabet = 'abc XYZ019"\\/{}[]:,<>&\n\t\u00e9\u4e2d\U0001F600$@.%s'
     s = ''.join(lr.choice(alphabet) for _ in range(n))
@@ -55,7 +59,7 @@ class G:
     def s_string(self, where):
         """a sensitive string of a random lexical class"""
         core = self.p.core(True)
-        k = self.r.choice(['ascii', 'ascii', 'unicode', 'astral', 'email', 'email_mixed', 'dollar_mid', 'digits', 'escapes', 'empty', 'lookalike', 'long', 'padded_email', 'percent', 'at_nonmail'])
+        k = self.r.choice(['ascii', 'ascii', 'unicode', 'astral', 'email', 'email_mixed', 'dollar_mid', 'digits', 'escapes', 'empty', 'lookalike', 'long', 'padded_email', 'percent', 'at_nonmail', 'pseudoshape'])
         self.hit('lit_' + k)
         if k == 'ascii': s = 'secret ' + core
         elif k == 'unicode': s = 'résumé ' + core + ' 中文'
@@ -75,6 +79,10 @@ class G:
             if self.lr is not None: return variant_string(self.lr, 'generic')
             return ''
         elif k == 'lookalike': s = 'REDACTED' + core
+        elif k == 'pseudoshape':   # exactly the shape of a pseudonym (also dotted): a value that looks as if it had been redacted already
+            s = 'REDACTED_%016x' % (0xabcd000000000000 + self.p.n)
+            if self.r.random() < 0.3: s = s + '.REDACTED_%016x' % (0x1234000000000000 + self.p.n)
+            core = s
         else: s = core * 40
         self.p.sensitive.append((core, 'string', where))
         if self.lr is not None:
@@ -124,9 +132,9 @@ class G:
         return {'$binary': {'base64': b, 'subType': sub}}
 
     def literal(self, where, depth=0, scalar_only=False):
-        kinds = ['str', 'str', 'str', 'num', 'bool', 'null', 'date', 'oid', 'bin', 'long', 'uuid']
+        kinds = ['str', 'str', 'str', 'num', 'bool', 'null', 'date', 'oid', 'bin', 'long', 'uuid', 'canon', 'uuid4']
         if not scalar_only and depth < self.maxdepth:
-            kinds += ['doc', 'arr', 'arrarr', 'arrdoc']
+            kinds += ['doc', 'arr', 'arrarr', 'arrdoc', 'longmixed']
         k = self.r.choice(kinds)
         self.hit('val_' + k)
         if k == 'str': return self.s_string(where)
@@ -138,6 +146,37 @@ class G:
         if k == 'bin': return self.s_binary(where)
         if k == 'long': return {'$numberLong': self.s_string(where + '.$numberLong')}
         if k == 'uuid': return {'$uuid': self.s_string(where + '.$uuid')}
+        if k == 'uuid4':   # a canonical RFC 4122 UUID (versions 1-5, all variants of the variant nibble)
+            self.p.n += 1
+            u = '%08x-%04x-%s%03x-%s%03x-%012x' % (0xa0000000 + self.p.n, self.p.n % 65536, self.r.choice('12345'), self.p.n % 4096, self.r.choice('89ab'), (self.p.n * 7) % 4096, 0xd01de7000000 + self.p.n)
+            self.p.sensitive.append((u, 'string', where + '.$uuid'))
+            return {'$uuid': u}
+        if k == 'canon':   # canonical-mode extended JSON
+            c = self.r.choice(['datelong', 'int', 'double', 'decimal', 'timestamp', 'regex', 'symbol', 'code', 'minkey', 'datelongneg'])
+            self.hit('canon_' + c)
+            if c == 'datelong': return {'$date': {'$numberLong': self.s_string(where + '.$date.$numberLong')}}
+            if c == 'datelongneg':
+                self.p.n += 1
+                ms = '-62%011d' % (10**9 + self.p.n)
+                self.p.sensitive.append((ms, 'string', where + '.$date.$numberLong'))
+                return {'$date': {'$numberLong': ms}}
+            if c == 'int': return {'$numberInt': self.s_string(where + '.$numberInt')}
+            if c == 'double': return {'$numberDouble': self.s_string(where + '.$numberDouble')}
+            if c == 'decimal': return {'$numberDecimal': self.s_string(where + '.$numberDecimal')}
+            if c == 'timestamp': return {'$timestamp': {'t': self.s_number(where), 'i': self.s_number(where)}}
+            if c == 'regex': return {'$regularExpression': {'pattern': self.s_string(where + '.pattern'), 'options': 'i'}}
+            if c == 'symbol': return {'$symbol': self.s_string(where + '.$symbol')}
+            if c == 'code': return {'$code': self.s_string(where + '.$code')}
+            return {self.r.choice(['$minKey', '$maxKey']): RawNum('1')}
+        if k == 'longmixed':   # a long list whose elements differ in JSON type but not in their text
+            n = self.r.choice([31, 32, 33, 40, 257])
+            twins = [[RawNum('7'), '7'], ['7', RawNum('7')], [True, 'true'], ['true', True], [RawNum('1.5'), '1.5'], ['false', False], [None, 'null'], ['<nil>', None]]
+            out = []
+            while len(out) < n:
+                if self.r.random() < 0.25: out += self.r.choice(twins)
+                else: out.append(self.literal(where + '[]', depth + 2, True))
+            self.hit('longmixed_%d' % (32 if n >= 32 else 31))
+            return out
         if k == 'doc': return {self.field(): self.literal(where + '.doc', depth + 1) for _ in range(self.r.randint(0, 3))}
         if k == 'arr': return [self.literal(where + '[]', depth + 1) for _ in range(self.r.randint(0, 3))]
         if k == 'arrarr': return [[self.literal(where + '[][]', depth + 2) for _ in range(self.r.randint(0, 2))] for _ in range(self.r.randint(0, 3))]
@@ -226,7 +265,7 @@ class G:
         """an expression that is not a bare scalar literal (argument positions the tool reads as a field path / name)"""
         for _ in range(20):
             e = self.expr(where, depth)
-            if isinstance(e, dict) and not any(k in e for k in ('$date', '$oid', '$binary', '$numberLong', '$uuid')): return e
+            if isinstance(e, dict) and not any(k in e for k in ('$date', '$oid', '$binary', '$numberLong', '$uuid', '$numberInt', '$numberDouble', '$numberDecimal', '$timestamp', '$regularExpression', '$symbol', '$code', '$minKey', '$maxKey')): return e
             if isinstance(e, str) and e.startswith('$'): return e
         return self.fieldref()
 
@@ -267,7 +306,7 @@ class G:
                  '$count', '$sortByCount', '$unset', '$replaceRoot', '$replaceWith', '$bucket', '$bucketAuto', '$redact', '$geoNear',
                  '$setWindowFields', '$documents', '$out', '$outobj', '$merge', '$mergepipe', '$densify', '$fill']
         if depth < self.maxdepth - 1:
-            kinds += ['$lookup', '$lookuppipe', '$graphLookup', '$unionWith', '$unionWithstr', '$facet', '$facet']
+            kinds += ['$lookup', '$lookuppipe', '$graphLookup', '$unionWith', '$unionWithstr', '$facet', '$facet', '$lookupsearch', '$unionWithsearch', '$facetsearch']
         k = self.r.choice(kinds)
         self.hit('stage_' + k)
         w = where + '.' + k
@@ -303,6 +342,9 @@ class G:
         if k == '$graphLookup': return {'$graphLookup': {'from': self.nsname(), 'startWith': self.expr(w, depth + 1), 'connectFromField': self.field(), 'connectToField': self.field(), 'as': self.name(), 'maxDepth': RawNum('3'), 'restrictSearchWithMatch': self.filter(w + '.restrict', depth + 1)}}
         if k == '$unionWith': return {'$unionWith': {'coll': self.nsname(), 'pipeline': self.pipeline(w + '.pipeline', depth + 1)}}
         if k == '$unionWithstr': return {'$unionWith': self.nsname()}
+        if k == '$lookupsearch': return {'$lookup': {'from': self.nsname(), 'pipeline': [self.search_stage(w + '.pipeline')] + self.pipeline(w + '.pipeline', depth + 2), 'as': self.name()}}
+        if k == '$unionWithsearch': return {'$unionWith': {'coll': self.nsname(), 'pipeline': [self.search_stage(w + '.pipeline')] + self.pipeline(w + '.pipeline', depth + 2)}}
+        if k == '$facetsearch': return {'$facet': {self.name(): [{'$lookup': {'from': self.nsname(), 'pipeline': [self.search_stage(w)], 'as': self.name()}}], self.name(): [self.search_stage(w), {'$limit': RawNum('3')}]}}
         if k == '$facet': return {'$facet': {self.name(): self.pipeline(w, depth + 1) for _ in range(self.r.randint(1, 2))}}
 
     def pipeline(self, where, depth=0):
@@ -318,7 +360,7 @@ class G:
         return self.field() if self.r.random() < 0.8 else self.path()
 
     def search_op(self, where, depth=0):
-        kinds = ['text', 'textarr', 'phrase', 'autocomplete', 'equals', 'in', 'range', 'near', 'regex', 'wildcard', 'queryString', 'exists', 'moreLikeThis', 'geoWithin']
+        kinds = ['text', 'textarr', 'phrase', 'autocomplete', 'equals', 'in', 'range', 'near', 'regex', 'wildcard', 'queryString', 'exists', 'moreLikeThis', 'moreLikeThisArr', 'inNested', 'geoWithin']
         if depth < self.maxdepth - 1:
             kinds += ['compound', 'compound', 'embeddedDocument']
         k = self.r.choice(kinds)
@@ -337,6 +379,10 @@ class G:
         if k == 'queryString': return {'queryString': {'defaultPath': self.field(), 'query': self.s_string(w)}}
         if k == 'exists': return {'exists': {'path': self.opath()}}
         if k == 'moreLikeThis': return {'moreLikeThis': {'like': {self.field(): self.literal(w, depth + 1, True)}}}
+        if k == 'moreLikeThisArr':   # documents in arrays, and in arrays nested in arrays
+            return {'moreLikeThis': {'like': self.r.choice([[{self.field(): self.literal(w, depth + 1, True)}], [[{self.field(): self.literal(w, depth + 1, True)}]],
+                                                            [[self.fieldref(), {self.field(): [[{self.field(): self.s_string(w)}]]}], []]])}}
+        if k == 'inNested': return {'in': {'path': self.opath(), 'value': [[self.literal(w, depth + 1, True), {self.field(): self.s_string(w)}], [self.fieldref()]]}}
         if k == 'geoWithin': return {'geoWithin': {'path': self.opath(), 'circle': {'center': {'type': 'Point', 'coordinates': [self.s_number(w), self.s_number(w)]}, 'radius': self.s_number(w)}}}
         if k == 'compound':
             d = {}
@@ -544,8 +590,10 @@ def bytes_mutations(rng, base_lines, n):
 def wrapper_lines(vocab):
     """every value kind under every extended-JSON wrapper and every vocabulary operator, in the three walkers"""
     out = []
-    vals = ['5', 'null', 'true', '"s"', '[]', '[1,"x",null]', '{}', '{"a":1}', '[[{"a":"s"}],[]]', '"$ref"', '1.5e300', '{"$date":7}']
-    keys = ['$date', '$oid', '$binary', 'base64', 'subType', '$numberLong', '$uuid', '$regex', '$timestamp'] + vocab['all']
+    vals = ['5', 'null', 'true', '"s"', '[]', '[1,"x",null]', '{}', '{"a":1}', '[[{"a":"s"}],[]]', '"$ref"', '1.5e300', '{"$date":7}',
+            '{"$numberLong":"-62135596800001"}', '{"$numberLong":7}', '{"$numberLong":"1","x":"y"}', '"a657a630-1111-4000-8000-d01de73c37e7"', '"REDACTED_0123456789abcdef"']
+    keys = ['$date', '$oid', '$binary', 'base64', 'subType', '$numberLong', '$uuid', '$regex', '$timestamp', '$numberInt', '$numberDouble', '$numberDecimal',
+            '$regularExpression', 'pattern', '$symbol', '$code', '$scope', '$minKey', '$maxKey', '$dbPointer', '$ref', '$id', '$undefined', 't', 'i'] + vocab['all']
     for k in keys:
         kq = json.dumps(k)
         for v in vals:
@@ -600,6 +648,10 @@ def collide_lines(vocab):
             '{"update":"c","updates":[{"q":{%s:"%s"},"u":{"$set":{%s:"%s"}}}],"$db":"d"}' % (kq, core(), kq, core()),
             '{"insert":"c","documents":[{%s:"%s","doc":{%s:["%s"]}}],"$db":"d"}' % (kq, core(), kq, core()),
             '{"aggregate":"c","pipeline":[{"$match":{%s:"%s"}},{"$lookup":{"from":"x","pipeline":[{"$match":{%s:"%s"}}],"as":"j"}}],"$db":"d"}' % (kq, core(), kq, core()),
+            # free-form user documents inside Atlas Search / vector-search stages
+            '{"aggregate":"c","pipeline":[{"$vectorSearch":{"index":"vi","path":"emb","queryVector":[0.5,0.25],"numCandidates":100,"limit":5,"filter":{%s:{"$eq":"%s"},"$and":[{%s:"%s"}]}}}],"$db":"d"}' % (kq, core(), kq, core()),
+            '{"aggregate":"c","pipeline":[{"$search":{"index":"si","moreLikeThis":{"like":{%s:"%s","sub":{%s:"%s"}}}}}],"$db":"d"}' % (kq, core(), kq, core()),
+            '{"aggregate":"c","pipeline":[{"$search":{"index":"si","compound":{"filter":[{"moreLikeThis":{"like":[{%s:"%s"}]}}],"must":[{"embeddedDocument":{"path":"items","operator":{"moreLikeThis":{"like":{%s:{"$in":["%s"]}}}}}}]}}}],"$db":"d"}' % (kq, core(), kq, core()),
         ]
         for cmd in cmds:
             l = '{"t":{"$date":"2020-01-01T00:00:00.000+00:00"},"s":"I","c":"COMMAND","id":51803,"ctx":"conn1","msg":"Slow query","attr":{"ns":"d.c","command":%s,"remote":"10.0.0.1:5"}}' % cmd
